@@ -6,6 +6,8 @@ import datetime as dt
 import re
 from fractions import Fraction
 
+import math
+
 import numpy as np
 
 from harness import common, tlegen
@@ -190,6 +192,21 @@ def crossings(orb, ep):
     return lo + idx + (-z[idx] / (z[idx + 1] - z[idx]))
 
 
+def ecc_of(tle):
+    return float("0." + tle[1][26:33])
+
+
+def apsidal_bound(tle, s):
+    """5 s + 1.25 (e/n) dw^2: see the comment at its use"""
+    ecc, inc, mm = ecc_of(tle), math.radians(float(tle[1][8:16])), float(tle[1][52:63])
+    n = mm * 2 * math.pi / 86400.0
+    a = (398600.8 / n ** 2) ** (1.0 / 3.0)
+    p = a * (1 - ecc ** 2)
+    wdot = 0.75 * 1.08263e-3 * (6378.135 / p) ** 2 * n * abs(5 * math.cos(inc) ** 2 - 1)
+    dw = wdot * abs(s)
+    return 5.0 + 1.25 * (ecc / n) * dw ** 2
+
+
 def expected_count(tc, s, pivot=0.0):
     if s >= 0:
         return int(np.sum((tc > pivot) & (tc <= s)))
@@ -249,12 +266,14 @@ def orbit_number_checks(ctx, rng, tle, ti, floats_out):
             continue                                   # int() truncates toward zero: below zero the two clauses of the property disagree
         want = rev + expected_count(tc, s)
         if n_int not in {rev + k for k in expected_counts(tc, s)}:
-            ecc, inc = float("0." + tle[1][26:33]), float(tle[1][8:16])
-            # KNOWN class (known_findings.json): eccentric orbits close to the equatorial plane, where the node-to-node
-            # interval is modulated by apsidal rotation; only moderate errors fall under it, gross ones keep a per-input signature
-            known = ecc >= 0.02 and (inc <= 30.0 or inc >= 150.0) and near <= 15.0 * abs(s) / 86400.0 + 5.0
+            # KNOWN class (known_findings.json): eccentric orbits.  The code extrapolates ONE node-to-node interval measured at
+            # epoch; the real interval is modulated by the rotation of perigee relative to the node.  With crossing-time offset
+            # delta(w) of amplitude 2e/n, the error of the linear extrapolation after the perigee has turned by dw is
+            # delta(w0+dw) - delta(w0) - delta'(w0) dw, at most (e/n) dw^2.  Errors inside 5 s + 1.25 (e/n) dw^2 (J2 secular
+            # rate of w from the element set) fall under the known finding; anything larger keeps a per-input signature.
+            known = ecc_of(tle) >= 0.02 and near <= apsidal_bound(tle, s)
             ctx.violation("orbit number differs from TLE rev + signed count of ascending equator crossings since epoch",
-                          {"signature": "C11:count:eccentric-low-inclination" if known else sig % "count", **info, "expected": want,
+                          {"signature": "C11:count:eccentric-apsidal-rotation" if known else sig % "count", **info, "expected": want,
                            "seconds_to_nearest_crossing": near, "exemption_s": 2.0 + 5.0 * abs(s) / 86400.0})
     # equator crossing time: the continuous number is an integer there
     for _ in range(ctx.n(2, 5)):
